@@ -431,6 +431,13 @@ theorem lexErr_alloc_le (text : List Char) (out : Out (Nat × Nat × Nat)) (h : 
 example : lexErrK ['\n', ' ', ' '] = .ok { allocs := [2, 1], res := .ok (2, 2, 1) } := by decide
 example : Legacy.widen 65535 65535 = .panic := by decide
 
+/-- the named limits are sane: whatever the `alloc_le` theorems allow fits a 2 GiB address space
+    (bytes: 24 per `Value`) — a limit edited to something huge breaks this -/
+theorem limits_fit_2GiB :
+    Gen.rangeLimit * valueSize ≤ 2147483648 ∧ Gen.maxRepeatedStringLen ≤ 2147483648 ∧
+    Gen.fmtMaxWidth ≤ 2147483648 ∧ Gen.untrustedSizeHintCap * valueSize ≤ 2147483648 ∧
+    Gen.maxExprNesting ≤ 10000 ∧ Gen.maxRecursionParser ≤ 1000 := by decide
+
 theorem kernels_never_panic : KernelsNeverPanic :=
   ⟨fun _ xs a b c ha hb hc hl => slice_no_panic xs a b c ha hb hc hl, range_no_panic, cycle_no_panic,
    mulStr_no_panic, repeatSeq_no_panic, indent_no_panic, tojsonIndent_no_panic, fmtWidth_no_panic,
